@@ -5,6 +5,7 @@ static inline void osmo_store32be(uint32_t v, void *p) { uint8_t *b = p; b[0] = 
 #define GSM_TDMA_SUPERFRAME (26*51)
 #define GSM_TDMA_HYPERFRAME (2048*GSM_TDMA_SUPERFRAME)
 #define GSM_TDMA_FN_SUM(a, b) (((a) + (b)) % GSM_TDMA_HYPERFRAME)
+#define GSM_TDMA_FN_INC(fn) ((fn) = GSM_TDMA_FN_SUM((fn), 1))      /* as in libosmocore's gsm0502.h: increments in place */
 #define GSM_NBITS_NB_GMSK_BURST 148
 #define GSM_NBITS_NB_8PSK_BURST 444
 #define OSMO_SOCK_F_BIND 2
